@@ -200,6 +200,16 @@ def run(ctx, rep):
                 '(the search raises because f has the same sign at both ends)', construct='bracket')
     else:
         rep.ok('D2.root', fn, b, f'bracket [{lo_v:g}, {hi_v:g}] spans the unit interval up to 1e-6 and lies inside it', construct='bracket')
+        # D5: the bracket has a sign change for every (theta, y, v) of the property's range
+        rep.rule('D5.bracket', 'for the families that use the generic search, the conditional CDF at the lower bracket end is at most the smallest '
+                 'probability of the property\'s range (1e-4) for every v and theta of the range: otherwise the search has no sign change and raises')
+        generic = []
+        for fam_ in ('Frank', 'Gumbel', 'Clayton'):
+            m_ = prog.cls(ivcases.Q[fam_]).lookup('percent_point')
+            if m_ is fn or (m_ is not None and any(isinstance(c_, ast.Call) and isinstance(c_.func, ast.Attribute) and c_.func.attr == 'percent_point'
+                                                     and isinstance(c_.func.value, ast.Call) and call_name(c_.func.value) == 'super' for c_ in walk_no_nested(m_.node))):
+                generic.append(fam_)
+        ivcases.run_family_clauses(ctx, rep, 'D5.bracket', 'partial_derivative', ivcases.bracket_clauses(lo_v), tuple(generic))
     # the scalar wrapper stacks (u, v) in this order: the family methods take the point as a row (u, v)
     rep.rule('D2.stack', 'partial_derivative_scalar(U, V) evaluates partial_derivative at the rows (U, V), first argument in the first column')
     pds = prog.method(BIV, 'partial_derivative_scalar', inherited=False)
